@@ -62,7 +62,7 @@ PwrChecks(h, p, c) ==
      <<"MassCompound", MassCompoundOf(c)>>, <<"PwrAccel", PwrAccelOf(h, c)>>,
      \* (the initial record carries no forces yet: the first step has only one alignment to offer, so it is not judged)
      <<"PwrRes", c.k = 1 \/ PwrResOf(h, c, c.F) \/ PwrResOf(h, c, p.F)>>, <<"PwrClip", PwrClipOf(p, c)>>,
-     <<"PwrEnergy", PwrEnergyOf(h, p, c)>>, <<"PwrEnergyPos", PwrEnergyPosOf(h, p, c)>>,
+     <<"PwrDynCap", PwrDynCapOf(c)>>, <<"PwrEnergy", PwrEnergyOf(h, p, c)>>, <<"PwrEnergyPos", PwrEnergyPosOf(h, p, c)>>,
      <<"PwrEnergyNeg", PwrEnergyNegOf(h, p, c)>> >>
 (* a force record matches the definition at the state saved one step earlier or at its own state *)
 ResChecks(h, p, c) ==
